@@ -85,6 +85,59 @@ pub(crate) fn is_sy_metadata(relative_path: &Path) -> bool {
     )
 }
 
+/// `-H` makes hard links while names are CREATED. Names that were already in the destination
+/// keep the inode they had, so a name added to an old group, files that became hard links of each
+/// other, and a group whose members were each rebuilt through their own working file all ended
+/// up on separate inodes. After the transfers every destination name of a multiply-linked source
+/// file that holds the same file as the group's first name (size and time stamp, as the planner
+/// compares them) is moved onto that name's inode: linked under the working name, then renamed
+/// into place. Destinations that are not local have no entry here: nothing happens.
+#[cfg(unix)]
+fn relink_hard_link_groups(groups: &std::collections::HashMap<u64, Vec<PathBuf>>) {
+    use std::os::unix::fs::MetadataExt;
+
+    for names in groups.values() {
+        // one name per distinct (size, time stamp) found so far; normally there is exactly one
+        let mut kept: Vec<(&PathBuf, std::fs::Metadata)> = Vec::new();
+        for name in names {
+            let meta = match std::fs::symlink_metadata(name) {
+                Ok(m) if m.is_file() => m,
+                _ => continue,
+            };
+            let same_file = |k: &std::fs::Metadata| {
+                k.dev() == meta.dev()
+                    && k.len() == meta.len()
+                    && (k.mtime(), k.mtime_nsec()) == (meta.mtime(), meta.mtime_nsec())
+            };
+            let Some((keep, keep_meta)) = kept.iter().find(|(_, k)| same_file(k)) else {
+                kept.push((name, meta));
+                continue;
+            };
+            if keep_meta.ino() == meta.ino() {
+                continue;
+            }
+            let working = crate::temp_file::temp_path_for(name);
+            let _ = std::fs::remove_file(&working);
+            let linked =
+                std::fs::hard_link(keep, &working).and_then(|()| std::fs::rename(&working, name));
+            match linked {
+                Ok(()) => tracing::debug!(
+                    "Hard link restored: {} -> {}",
+                    name.display(),
+                    keep.display()
+                ),
+                Err(e) => {
+                    let _ = std::fs::remove_file(&working);
+                    tracing::warn!("Could not restore hard link {}: {}", name.display(), e);
+                }
+            }
+        }
+    }
+}
+
+#[cfg(not(unix))]
+fn relink_hard_link_groups(_groups: &std::collections::HashMap<u64, Vec<PathBuf>>) {}
+
 pub struct SyncEngine<T: Transport> {
     transport: Arc<T>,
     dry_run: bool,
@@ -718,6 +771,25 @@ impl<T: Transport + 'static> SyncEngine<T> {
             monitor.lock().unwrap().start_transfer();
         }
 
+        // With -H: the destination names of every multiply-linked source file (see
+        // `relink_hard_link_groups`)
+        let mut link_groups: std::collections::HashMap<u64, Vec<PathBuf>> =
+            std::collections::HashMap::new();
+        if self.preserve_hardlinks && !self.dry_run {
+            for task in &tasks {
+                if let Some(file) = task.source.as_ref() {
+                    if let (Some(inode), false, false, true) =
+                        (file.inode, file.is_dir, file.is_symlink, file.nlink > 1)
+                    {
+                        link_groups
+                            .entry(inode)
+                            .or_default()
+                            .push(task.dest_path.clone());
+                    }
+                }
+            }
+        }
+
         // Parallel execution with semaphore for concurrency control
         let semaphore = Arc::new(Semaphore::new(self.max_concurrent));
         let mut handles = Vec::with_capacity(tasks.len());
@@ -1229,6 +1301,8 @@ impl<T: Transport + 'static> SyncEngine<T> {
 
         // Collect all results
         let results = futures::future::join_all(handles).await;
+
+        relink_hard_link_groups(&link_groups);
 
         // End transfer timing
         if let Some(ref monitor) = self.perf_monitor {
